@@ -169,6 +169,10 @@ func epFieldCases(r *rng) []string {
 }
 
 var fenBoundary = []string{
+	// two kings of one colour where one of them stands on a1 (square value 0) or h8
+	"7k/8/8/8/8/8/8/KK6 w - - 0 1", "7k/8/8/8/8/8/8/K4K2 w - - 0 1", "7K/8/8/8/8/8/8/kk6 b - - 0 1", "k6k/8/8/8/8/8/8/K7 w - - 0 1",
+	"K6k/8/8/8/8/8/8/K7 w - - 0 1", "k6K/8/8/8/8/8/8/k7 b - - 0 1", "7k/8/8/8/8/8/8/K6K w - - 0 1", "kk6/8/8/8/8/8/8/7K w - - 0 1",
+	"7k/8/8/8/8/8/8/KKK5 w - - 0 1", "k7/8/8/8/8/8/8/8 w - - 0 1", "8/8/8/8/8/8/8/K7 w - - 0 1", "k7/8/8/8/8/8/8/K7 w - - 0 1", "7k/8/8/8/8/8/8/7K b - - 0 1",
 	"4k3/8/8/888888888888888888888888888888888/8/8/8/4K3 w - - 0 1", "4k3/8/8/88888888888888888888888888888888Q7/8/8/8/4K3 w - - 0 1",
 	"4k3/8/8/88888888888888888888888888888888/8/8/8/4K3 w - - 0 1", "4k3/8/8/8/8/8/8/4K388888888888888888888888888888888 w - - 0 1",
 	"88p/8/8/8/8/8/8/8 w - - 0 1", "8/8/8/8/8/8/8/p88 w - - 0 1", "k7/8/8/8/8/8/8/K71 w - - 0 1", "k7/8/8/8/8/8/8/K8 w - - 0 1",
